@@ -459,12 +459,15 @@ static json do_op(Ctx& c, int idx, const json& op)
     return simgrid::kernel::actor::simcall_answered([s]() { return s->would_block(); });
   }
   /* ---- condition variable (the mutex of cond c is objects.cond[c]) */
-  if (o == "cv_wait") {
-    S->conds[I(1)]->wait(S->mutexes[S->cond_mutex[I(1)]]);
+  if (o == "cv_wait") { // ["cv_wait", c] with the mutex of the scenario, or ["cv_wait", c, m] with mutex m
+    int m = op.size() > 2 ? I(2) : S->cond_mutex[I(1)];
+    S->conds[I(1)]->wait(S->mutexes[m]);
     return nullptr;
   }
-  if (o == "cv_wait_for")
-    return S->conds[I(1)]->wait_for(S->mutexes[S->cond_mutex[I(1)]], D(2)) == std::cv_status::timeout;
+  if (o == "cv_wait_for") { // ["cv_wait_for", c, t] or ["cv_wait_for", c, t, m]
+    int m = op.size() > 3 ? I(3) : S->cond_mutex[I(1)];
+    return S->conds[I(1)]->wait_for(S->mutexes[m], D(2)) == std::cv_status::timeout;
+  }
   if (o == "cv_wait_until")
     return S->conds[I(1)]->wait_until(S->mutexes[S->cond_mutex[I(1)]], D(2)) == std::cv_status::timeout;
   if (o == "notify_one") {
@@ -828,6 +831,11 @@ static json do_op(Ctx& c, int idx, const json& op)
   if (o == "link_energy") {
     auto* l = sg4::Link::by_name(op[1].get<std::string>());
     return simgrid::kernel::actor::simcall_answered([l]() { return hx(sg_link_get_consumed_energy(l)); });
+  }
+  if (o == "tick") { // ["tick", k]: read-and-increment of a counter shared by all actors, WITHOUT any simcall (plain memory): it
+                     // makes the global order of critical sections observable; only meaningful under sequential contexts
+    static std::map<int, int> counters;
+    return counters[I(1)]++;
   }
   /* ---- model checking helpers */
   if (o == "mc_random")
